@@ -130,7 +130,7 @@ HasDef(ev) ==
 DefOK(ev, r) ==
     CASE ev.fam = "bit" ->
             LET v == ev.a[1] w == ev.w IN
-            CASE ev.fn = "popcount" -> r = <<PopCount(v)>>
+            (CASE ev.fn = "popcount" -> r = <<PopCount(v)>>
               [] ev.fn = "countl_zero" -> r = <<CountlZero(v, w)>>
               [] ev.fn = "countr_zero" -> r = <<CountrZero(v, w)>>
               [] ev.fn = "countl_one" -> r = <<CountlOne(v, w)>>
@@ -139,31 +139,31 @@ DefOK(ev, r) ==
               [] ev.fn = "has_single_bit" -> r = <<B2I(HasSingleBit(v))>>
               [] ev.fn = "byteswap" -> r = ByteSwap(v, w)
               [] ev.fn = "rotl" -> r = Rotl(v, w, ev.a[2][1] % w)
-              [] ev.fn = "rotr" -> r = Rotl(v, w, (w - (ev.a[2][1] % w)) % w)
+              [] ev.fn = "rotr" -> r = Rotl(v, w, (w - (ev.a[2][1] % w)) % w))
       [] ev.fam = "sat" -> r = <<SatOp(ev.fn, ev.ty, ev.a[1][1], ev.a[2][1])>>
       [] ev.fam = "str" ->
-            CASE ev.fn = "strlen" -> r = <<Len(ev.a[1])>>
+            (CASE ev.fn = "strlen" -> r = <<Len(ev.a[1])>>
               [] ev.fn = "strcmp" -> r = <<StrCmp(ev.a[1], ev.a[2])>>
               [] ev.fn = "strncmp" -> r = <<StrNCmp(ev.a[1], ev.a[2], ev.a[3][1])>>
               [] ev.fn = "strchr" -> r = <<StrChr(ev.a[1], ev.a[2][1])>>
               [] ev.fn = "strrchr" -> r = <<StrRChr(ev.a[1], ev.a[2][1])>>
-              [] ev.fn = "memchr" -> r = <<MemChr(ev.a[1], ev.a[2][1], ev.a[3][1])>>
+              [] ev.fn = "memchr" -> r = <<MemChr(ev.a[1], ev.a[2][1], ev.a[3][1])>>)
       [] ev.fam = "bitcast" -> IF ev.fn = "f32_to_u32" THEN r = F32Bits(ev.a[1]) ELSE r = BitsF32(ev.a[1])
       [] ev.fam = "flt" ->
             LET f == IF ev.p = "f" THEN F32 ELSE F64 x == FV(f, ev.a[1]) IN
-            CASE ev.fn \in ExactUnaryFp -> Same(f, FV(f, r), UnaryFp(f, ev.fn, x))
+            (CASE ev.fn \in ExactUnaryFp -> Same(f, FV(f, r), UnaryFp(f, ev.fn, x))
               [] ev.fn \in ExactUnaryInt -> r = <<UnaryInt(f, ev.fn, x)>>
               [] ev.fn \in ExactUnaryLong ->
                     LET lr == LongRounded(f, ev.fn, x) IN
                     ~LongInRange(f, lr) \/ (r[5] = 1 /\ V(r[1], r[2], r[3], r[4]) = AsLong(f, lr))
-              [] ev.fn \in ExactBinary -> BinaryOK(f, ev.fn, x, FV(f, ev.a[2]), FV(f, r))
+              [] ev.fn \in ExactBinary -> BinaryOK(f, ev.fn, x, FV(f, ev.a[2]), FV(f, r)))
 
 \* is the call inside the domain where constant evaluation has to succeed?  (float calls whose exact result is not
 \* finite are not: C++ rejects overflow / NaN production in constant expressions; out-of-range lrint is undefined)
 CtRequired(ev) ==
     IF ev.fam # "flt" THEN TRUE
     ELSE LET f == IF ev.p = "f" THEN F32 ELSE F64 x == FV(f, ev.a[1]) IN
-         CASE ev.fn \in ExactUnaryLong -> LongInRange(f, LongRounded(f, ev.fn, x))
-           [] ev.fn \in ExactUnaryInt -> TRUE
-           [] OTHER -> ~IsNaN(f, x) /\ (Len(ev.a) < 2 \/ ~IsNaN(f, FV(f, ev.a[2])))
+         (CASE ev.fn \in ExactUnaryLong -> LongInRange(f, LongRounded(f, ev.fn, x))
+            [] ev.fn \in ExactUnaryInt -> TRUE
+            [] OTHER -> ~IsNaN(f, x) /\ (Len(ev.a) < 2 \/ ~IsNaN(f, FV(f, ev.a[2]))))
 =============================================================================
